@@ -19,6 +19,15 @@ add("C02", "differential runtime monitor: real header codecs and packets emitted
     "Trusts vf/ref/wire.py as the transcription of EN 302 636-4-1 cl. 9 / EN 302 636-5-1 cl. 7; lifetime code point is compared by value (C20 decides the quantiser); secured envelopes are decoded in C05, not here.",
     "DESIGN.md 3/C02")
 
+add("C08", "runtime monitor: reference location-table model stepped beside the real table over generated packet/clock histories; exhaustive-lattice + random check of the TST order",
+    "Exploration: a real GN router receives reference-built packets of all nine kinds from up to four phantom sources (and frames bearing its own address) with millisecond timestamps before/at/after its virtual clock, exact byte replays, clock advances up to several lifetimes and histories laid across the 2^32 ms wrap; after every processed packet get_entry/get_neighbours and a read-only walk of the table are compared with an independent model. All six comparison operators and subtraction of the real TST class are checked on a boundary lattice and random pairs/triples.",
+    "Expiry is judged outside +-1 s of tst+lifetime and only after a packet reached the table (purging is lazy by design); a source whose packet arrives inside that band is not judged until its entry has unambiguously expired; differences of exactly 2^31 ms are not judged.",
+    "DESIGN.md 3/C08")
+add("C19", "runtime monitor: reference reactive machine, exact-rational LIMERIC step and Annex B gate run beside the real objects",
+    "Exploration: exhaustive CBR sequences over band-boundary representatives (edge -1 ulp, edge, +1 ulp, interiors; length 4 quick / 6 thorough, both Annex A tables) and random walks drive the real DccReactive; random parameter sets and CBR sequences drive DccAdaptive with every step re-derived in exact rationals from the object's own previous state; random arrival/delta-update/query streams drive GateKeeper against an exact Annex B gate with probes 10 us before/after every scheduled opening and the 25 ms / 1 s / one-per-opening invariants asserted on the real outputs.",
+    "Annex A rows are the oracle's own transcription (the standard is not available offline); instants within 1 us of an opening are not judged.",
+    "DESIGN.md 3/C19")
+
 NOT_YET = "check not built yet (work in progress; runtime monitor planned in DESIGN.md section 3)"
 
 def main():
